@@ -106,7 +106,7 @@
  "name": "undo_write_byte",
  "props": ["C12"],
  "level": "P",
- "tier": "wip",
+ "tier": "quick",
  "harness": "h_write_byte",
  "enforce": ["undo_write_byte"],
  "replace": ["undo_write_tdb"],
